@@ -14,7 +14,7 @@ from typing import Any, List, Optional
 
 ROOTS = ["coro", "coro", "coro", "agen", "gen", "agen_thrown"]
 CORO_LINKS = ["await_coro", "await_gencoro", "await_wrapper", "await_gen", "agen_anext", "agen_asend", "agen_asend_agen", "with_del_self", "agen_athrow",
-              "agen_aclose", "async_for", "agen_anext_default", "aiter_anext_default", "with_static_exit"]
+              "agen_aclose", "async_for", "agen_anext_default", "aiter_anext_default", "with_static_exit", "tbhide_predicate", "await_proxy_gen", "agen_asend_obj"]
 GEN_LINKS = ["yield_from"]
 ENDS = ["trap", "future", "future_falsy", "future_len0", "gen_proto", "duck_gen", "coro_proto"]
 
@@ -286,6 +286,26 @@ def build(spec: dict) -> Chain:
                 await a.asend(5)
                 await tail()
             return ch.reg(f())
+        if k == "agen_asend_obj":
+            # the value sent in is an object of the program with a __getattr__ of its own (a lazy record, an RPC stub): the
+            # asend awaitable refers to it, but nobody looking for the generator has any business asking it for attributes
+            class Lazy:
+                def __getattr__(self_, name):
+                    LEAF_EVENTS.append("getattr:" + name)
+                    raise AttributeError(name)
+
+            async def ag():
+                v = yield 0
+                await aw(i + 1)
+                yield v
+
+            async def f():
+                a = ch.reg(ag())
+                ch.keep.append(a)
+                await a.asend(None)
+                await a.asend(Lazy())
+                await tail()
+            return ch.reg(f())
         if k == "agen_asend_agen":
             # the value sent is itself an async generator (a pipeline stage handed a stream): the asend awaitable then
             # refers to two objects with an ag_frame, the driven generator first
@@ -322,6 +342,32 @@ def build(spec: dict) -> Chain:
                 async with Drops():
                     pass
             return ch.reg(f())
+        if k == "tbhide_predicate":
+            # pytest's convention: __tracebackhide__ set to a predicate that expects the ExceptionInfo being reported (the idiom
+            # from its documentation).  Whether a frame is shown is one thing; the frames of the chain are another.
+            import operator
+
+            async def f():
+                __tracebackhide__ = operator.methodcaller("errisinstance", KeyError)
+                await aw(i + 1)
+                await tail()
+            return ch.reg(f())
+        if k == "await_proxy_gen":
+            # an awaitable that owns its generator and hands out a weak proxy to it: a transparent proxy, through which the
+            # generator's frame and what it waits on are reachable like on the generator itself
+            import weakref
+
+            def g():
+                yield from _it(aw(i + 1))
+
+            class AwP:
+                def __await__(self_):
+                    self_.gen = ch.reg(g())
+                    return weakref.proxy(self_.gen)
+
+            o = AwP()
+            ch.keep.append(o)
+            return o
         if k == "with_static_exit":
             # the chain passes through the body of a `with` whose manager's __exit__ is a staticmethod: the bytecode analysis of that
             # frame fails (known finding F34) and says so with an InspectionWarning -- which an application may have turned into an
